@@ -13,7 +13,18 @@
        3 x 3 smoothing spills 1) + 1 px, row within 1 map px + 1 px, heights = Ds x map heights (1 % of a map pixel),
        outline box = baseline box grown by the heights, regions cover the outlines (6 px: simplify(5)).
        All coordinates are compared in the ORIGINAL image frame, expectation = the pixel np.rot90 moved onto the
-       ridge point (InvRot).                                                                                      *)
+       ridge point (InvRot).
+
+   mode "scale":  a sampled page of a SCALE the bounded spaces cannot reach (hundreds / more than a thousand ridges in
+       one column, map columns beyond 32767 and coordinates beyond 65535, heights beyond 255 map px; the page carries
+       its own map size mh x mw), decoded by a LONG-LIVED engine: all pages of the sample go through one LayoutEngine
+       object one after the other, some after a call that raised half-way, the first page once more at the end.
+       via = "detect": as mode "ridges";  via = "parse": LayoutEngine.parse(maps, ds) alone (k = 0).
+       TLC cannot enumerate such configurations (the design run covers up to three ridge slots), but the clause is not
+       an oracle computed in Python: the ridges of the page are part of the trace and every one of them is judged here by
+       the SAME LineMatches as in mode "ridges".  Only the search through all NL! bijections is replaced by its
+       equivalent for ridges >= 15 map rows apart (a line cannot be within Ds + 1 px of two of them): every ridge is
+       matched by exactly one line and these lines are all the lines (ScaleOnePerRidge).                           *)
 EXTENDS LayoutDecode, TraceKit
 CONSTANT Level
 VARIABLES tid, clause
@@ -25,6 +36,14 @@ TInit == /\ tid \in 1..NTraces
          /\ IF Traces[tid].mode = "pixels"
             THEN /\ cfg = [H |-> Traces[tid].H, W |-> Traces[tid].W, k |-> Traces[tid].k, x |-> 0, y |-> 0]
                  /\ pc = "pixel"
+            ELSE IF Traces[tid].mode = "scale"
+            THEN /\ cfg = [k |-> Traces[tid].k, ds |-> Traces[tid].ds, ep |-> Traces[tid].ep, rm |-> Traces[tid].rm,
+                           mh |-> Traces[tid].mh, mw |-> Traces[tid].mw,
+                           ridges |-> [i \in 1..Len(Traces[tid].ridges) |->
+                                          [dy |-> Traces[tid].ridges[i].dy, y |-> Traces[tid].ridges[i].y, x0 |-> Traces[tid].ridges[i].x0,
+                                           x1 |-> Traces[tid].ridges[i].x1, a2 |-> Traces[tid].ridges[i].a2,
+                                           d2 |-> Traces[tid].ridges[i].d2]]]
+                 /\ pc = "maps"
             ELSE /\ cfg = [k |-> Traces[tid].k, ds |-> Traces[tid].ds, ep |-> Traces[tid].ep, rm |-> Traces[tid].rm,
                            ridges |-> [i \in 1..Len(Traces[tid].ridges) |->
                                           [dy |-> Traces[tid].ridges[i].dy, y |-> Traces[tid].ridges[i].y, x0 |-> Traces[tid].ridges[i].x0,
@@ -135,10 +154,31 @@ RidgeFailing == IF Tr.outcome # "ok" THEN 1
                 ELSE IF Level = "exact" /\ (\A i \in 1..Len(cfg.ridges) : cfg.ridges[i].dy = 0) /\ ~ExactLines THEN 6
                 ELSE 0
 
+\* ------------------------------------------------------------------------------- scale (sampled large pages, long-lived engine)
+NR == Len(cfg.ridges)
+\* the ridges of such a page are a legal input of the statement: inside the maps, >= 6 px long (>= 10 with end-point responses),
+\* >= 15 map rows apart, in increasing row order
+ScaleInScope == /\ NR >= 1
+                /\ \A i \in 1..NR : LET r == cfg.ridges[i] IN
+                       /\ r.x0 >= 3 /\ r.x1 <= cfg.mw - 3 /\ r.x1 - r.x0 + 1 >= ShortLen(cfg.ep) /\ r.dy = 0
+                       /\ r.y >= 8 /\ r.y <= cfg.mh - 7 /\ r.a2 >= 0 /\ r.d2 >= 0
+                       /\ (i > 1 => r.y - cfg.ridges[i - 1].y >= 15)
+ScaleOnePerRidge ==
+    LET m == [r \in 1..NR |-> {i \in 1..NL : LineMatches(L[i], cfg.ridges[r])}]
+    IN /\ \A r \in 1..NR : Cardinality(m[r]) = 1
+       /\ {CHOOSE i \in m[r] : TRUE : r \in 1..NR} = 1..NL
+ScaleFailing == IF ~ScaleInScope THEN 9                                     \* (a driver bug, not a verdict on the code)
+                ELSE IF Tr.outcome # "ok" THEN 1
+                ELSE IF NL # NR THEN 2                                      \* exactly one line per ridge
+                ELSE IF ~ScaleOnePerRidge THEN 3                            \* positions / heights / outlines
+                ELSE IF Tr.via = "detect" /\ ~RegionsCover THEN 4
+                ELSE IF Tr.via = "detect" /\ ~UnrotWithinOnePixel THEN 7    \* original-image coordinates within one pixel
+                ELSE 0
+
 TNext == /\ UNCHANGED tid
          /\ \/ /\ pc = "pixel" /\ pc' = "checked" /\ UNCHANGED <<cfg, lines>> /\ clause' = PixelFailing
             \/ /\ Parse /\ UNCHANGED clause
-            \/ /\ Rotate /\ clause' = RidgeFailing
+            \/ /\ Rotate /\ clause' = IF Tr.mode = "scale" THEN ScaleFailing ELSE RidgeFailing
 
 Steps == CASE pc \in {"pixel", "maps"} -> 0 [] pc = "parsed" -> 1 [] OTHER -> 10 + clause
 TAccept == TKMark(tid, Steps, pc \in {"checked", "rotated"} /\ clause = 0)
